@@ -109,7 +109,10 @@ def visited(acc, sub):
     orig = acc.values_function
     acc.values_function = lambda v: int(v)
     try:
-        return [int(v) for v in acc[sub]]
+        out = list(acc[sub])
+        # (an accessor that does not go through values_function hands back real items: reported as such, the model's answer
+        #  is then compared with nothing it could equal)
+        return [int(v) if isinstance(v, (int, np.integer)) else f'<{type(v).__name__}>' for v in out]
     finally:
         acc.values_function = orig
 
